@@ -3,6 +3,7 @@
    64-bit key hash of a line, HashCallback(RangeFields(line, -f, -d)); the file
    index is [keyhash line mod n] (model of preprocess/shard_main.cc main()). *)
 From PP Require Import Shard.ShardDefs Shard.ShardProofs Compress.CompressDefs Compress.CompressProofs.
+From PP Require Import Shard.ShardConcrete Shard.ShardConcreteProofs Fields.FieldsDefs.
 From Coq Require Import Permutation.
 Local Open Scope N_scope.
 
@@ -81,6 +82,34 @@ Theorem C06_every_file_valid :
         kstream member k file content /\ file <> [].
 Proof. exact shard_files_valid. Qed.
 Print Assumptions C06_every_file_valid.
+
+(* ---- the key hash instantiated with the models of C10 (RangeFields) and C14
+   (MurmurHash64A, HashCallback chaining): Shard/ShardConcrete.v.  The file index is
+   a function of the key pieces and n only. *)
+Theorem C06_index_depends_only_on_key_pieces :
+  forall (ranges : list range) (d : Z) (n : N) (l1 l2 : list Z),
+    range_fields l1 ranges d = range_fields l2 ranges d ->
+    index (field_keyhash ranges d) n l1 = index (field_keyhash ranges d) n l2.
+Proof. exact index_depends_on_pieces. Qed.
+Print Assumptions C06_index_depends_only_on_key_pieces.
+
+Theorem C06_concrete_tool_partition :
+  forall spec d n input outs, 0 < n ->
+    shard_tool_fields spec d n input = Some outs ->
+    exists ranges, parse_key_spec spec = Some ranges /\
+      Permutation (concat (shard (field_keyhash ranges d) n (records 10%Z shard_strip_cr input)))
+                  (records 10%Z shard_strip_cr input) /\
+      outs = map shard_bytes (shard (field_keyhash ranges d) n (records 10%Z shard_strip_cr input)).
+Proof. exact concrete_partition. Qed.
+Print Assumptions C06_concrete_tool_partition.
+
+(* `printf 'b\tx\na\ty\nb\tz\n' | shard -f 1 s0 s1 s2`, computed by the models of all three properties *)
+Example C06_nonvacuous_concrete_tool :
+  exists o0 o1 o2,
+    shard_tool_fields [49]%Z 9%Z 3 [98;9;120;10; 97;9;121;10; 98;9;122;10]%Z = Some [o0; o1; o2] /\
+    (o0 ++ o1 ++ o2)%list <> [] /\
+    (In [98;9;120;10;98;9;122;10]%Z [o0; o1; o2]).
+Proof. vm_compute. eexists _, _, _. split; [reflexivity|]. split; [discriminate|]. simpl. tauto. Qed.
 
 Example C06_nonvacuous_shard :
   let kh := fun l : list Z => match l with [] => 0 | (b :: _)%list => Z.to_N b end in
